@@ -3,6 +3,7 @@ import ast
 import json
 import os
 import socket
+import warnings
 
 import common
 import srvkit
@@ -390,11 +391,14 @@ def _run(ctx, name, n, do_model):
             state["made"] += k
             yield [gen.history(None) for _ in range(k)]
 
-    for hists in chunks():
-        if state["stuck"] >= 3:
-            ctx.notes.append("C05: stopped after 3 stuck / unsettled runs (every further one would wait for its deadline again)")
-            break
-        _run_chunk(ctx, gen, hists, do_model, state)
+    with warnings.catch_warnings():
+        # serpent parses (mutated) payload text with ast.literal_eval, which warns about odd escape sequences
+        warnings.simplefilter("ignore", SyntaxWarning)
+        for hists in chunks():
+            if state["stuck"] >= 3:
+                ctx.notes.append("C05: stopped after 3 stuck / unsettled runs (every further one would wait for its deadline again)")
+                break
+            _run_chunk(ctx, gen, hists, do_model, state)
 
 
 def _run_chunk(ctx, gen, hists, do_model, state):
